@@ -350,6 +350,9 @@ impl Check for C14 {
         let n_ar = ar.len();
         ctx.judge(ar, |c, r, o| self.oracle(c, r, o))?;
         ctx.judge(freshness_cases(), |c, r, o| self.oracle(c, r, o))?;
+        // arguments are evaluated once, left to right (and before the callee), also with spreads
+        let eo: Vec<Case> = super::evalorder::cases(2).into_iter().filter(|c| c.meta.contains("(@")).collect();
+        ctx.judge(eo, |c, r, o| self.oracle(c, r, o))?;
         ctx.guard("one function was called with two different objects as `this`", g_moved_called);
         ctx.guard("a call without `this` was rejected", g_no_this);
         ctx.extra.insert(
